@@ -67,6 +67,7 @@ func (c *Confirm) Init(ab *authboss.Authboss) (err error) {
 	callbackMethod("/confirm", c.Authboss.Config.Core.ErrorHandler.Wrap(c.Get))
 
 	c.Events.Before(authboss.EventAuth, c.PreventAuth)
+	c.Events.Before(authboss.EventOAuth2, c.PreventAuth)
 	c.Events.After(authboss.EventRegister, c.StartConfirmationWeb)
 
 	return nil
